@@ -1,7 +1,7 @@
 """Translator for C04/C08: the live `oslo_utils.strutils` tables -> lean/OsloModel/Generated/Mask.lean.
 
 Reads *values* from the module imported from common.REPO: `_SANITIZE_KEYS` and the compiled pattern
-objects in `_SANITIZE_PATTERNS_2/_1/_WILDCARD`.  Every compiled pattern is parsed with `re._parser.parse`
+objects in `_SANITIZE_PATTERNS_2/_1/_WILDCARD` (located by name, else by shape -- see `pattern_tables`).  Every compiled pattern is parsed with `re._parser.parse`
 (flags as compiled) and must be *flat*:  `(g1) mid` or `(g1) mid (g2)` where g1/mid/g2 are sequences of
 single-character items (LITERAL / NOT_LITERAL / IN / ANY) each optionally under one greedy MAX_REPEAT.
 Anything else (alternation, nested repetition, anchors, lazy/possessive repeats, look-around, back
@@ -235,13 +235,170 @@ def abstract(items, key, ignorecase):
     return out
 
 
+# ---------------------------------------------------------------- locating the private tables
+
+PINNED_KEYS = '_SANITIZE_KEYS'
+PINNED_TABLES = {'2': '_SANITIZE_PATTERNS_2', '1': '_SANITIZE_PATTERNS_1', 'W': '_SANITIZE_PATTERNS_WILDCARD'}
+PINNED_FORMATS = {'2': '_FORMAT_PATTERNS_2', '1': '_FORMAT_PATTERNS_1', 'W': '_FORMAT_PATTERNS_WILDCARD'}
+_PATTERN_TYPE = type(re.compile(''))
+_located = {}
+
+
+def _blind(msg):
+    import whitebox
+    return whitebox.HarnessBlind('strutils mask tables: ' + msg)
+
+
+def _is_key_list(v):
+    return isinstance(v, (list, tuple)) and len(v) >= 5 and all(isinstance(x, str) and x for x in v) \
+        and 'password' in v and 'token' in v
+
+
+def sanitize_keys(mod):
+    """The sanitize key list: the pinned name, else the one module-level list/tuple of str that looks like it."""
+    v = getattr(mod, PINNED_KEYS, None)
+    if _is_key_list(v):
+        return list(v)
+    cands = [x for n, x in vars(mod).items() if _is_key_list(x)]
+    if len(cands) == 1 or (cands and all(list(c) == list(cands[0]) for c in cands)):
+        return list(cands[0])
+    raise _blind('cannot locate the sanitize key list (%d candidates)' % len(cands))
+
+
+def _leaf_groups(value, path=()):
+    """Ordered (path, [compiled patterns]) leaves of a per-key record: list / tuple / namedtuple / dict, nested."""
+    if isinstance(value, _PATTERN_TYPE):
+        return [(path, [value])]
+    if isinstance(value, dict):
+        value = list(value.items())
+        out = []
+        for k, x in value:
+            out += _leaf_groups(x, path + (str(k),))
+        return out
+    if isinstance(value, (list, tuple)):
+        if value and all(isinstance(x, _PATTERN_TYPE) for x in value):
+            return [(path, list(value))]
+        names = getattr(value, '_fields', None)
+        out = []
+        for i, x in enumerate(value):
+            out += _leaf_groups(x, path + ((names[i] if names else str(i)),))
+        return out
+    return []
+
+
+def _format_tables(mod):
+    """{'2'|'1'|'W': [format strings]} from the pinned `_FORMAT_PATTERNS_*` names (list or tuple), else None."""
+    out = {}
+    for g, name in PINNED_FORMATS.items():
+        v = getattr(mod, name, None)
+        if not (isinstance(v, (list, tuple)) and v and all(isinstance(x, str) and '%(key)s' in x for x in v)):
+            return None
+        out[g] = list(v)
+    return out
+
+
+PROBES = ['{"password": "abc", "user": "bob"}', 'password=abc def', "password = 'x y' z", '--password a b',
+          '<password>x</password> "q" \'r\'', '"token": "a"b" c "d"', 'password --f x y', "'password', '--f', 'v' w",
+          'password "a b" c', "u'token': u'x' 'y'", 'token=a"b', 'password=\'a\' "password": "b" \'c\'']
+
+
+def _reference(mod, keys, tables, message, mask):
+    for key in keys:
+        if key in message.lower():
+            for p in tables['2'][key]:
+                message = p.sub(r'\g<1>' + mask + r'\g<2>', message)
+            for p in tables['1'][key]:
+                message = p.sub(r'\g<1>' + mask, message)
+            for p in tables['W'][key]:
+                message = p.sub(r'\g<1>', message)
+    return message
+
+
+def _agrees(mod, keys, tables):
+    try:
+        return all(_reference(mod, keys, tables, m, '***') == mod.mask_password(m, '***') for m in PROBES)
+    except Exception:
+        return False
+
+
+def pattern_tables(mod):
+    """{'2': {key: [compiled]}, '1': {...}, 'W': {...}}: the per-key compiled patterns in application order.
+
+    First the pinned dict names.  Otherwise every module-level dict that has all sanitize keys is searched for
+    (possibly nested) sequences of compiled patterns; these are mapped back to the three groups by the
+    `_FORMAT_PATTERNS_*` tables (source text = format % key, which also fixes the order) or, failing that, by the
+    number of groups and by probing `mask_password` with the two possible assignments.  HarnessBlind if the
+    grouping cannot be recovered."""
+    ck = id(mod)
+    if ck in _located:
+        return _located[ck]
+    keys = sanitize_keys(mod)
+
+    def ok_table(t):
+        return isinstance(t, dict) and all(k in t and isinstance(t[k], (list, tuple)) and
+                                           all(isinstance(p, _PATTERN_TYPE) for p in t[k]) for k in keys)
+    pinned = {g: getattr(mod, n, None) for g, n in PINNED_TABLES.items()}
+    if all(ok_table(t) for t in pinned.values()):
+        res = {g: {k: list(t[k]) for k in keys} for g, t in pinned.items()}
+        _located[ck] = res
+        return res
+    # discovery by shape
+    per_key = {k: [] for k in keys}
+    for name, d in vars(mod).items():
+        if isinstance(d, dict) and all(k in d for k in keys):
+            for k in keys:
+                per_key[k] += [((name,) + path, pats) for path, pats in _leaf_groups(d[k])]
+    if not all(per_key[k] for k in keys):
+        raise _blind('no module-level container maps every sanitize key to compiled patterns')
+    fmts = _format_tables(mod)
+    res = {'2': {}, '1': {}, 'W': {}}
+    if fmts:
+        for k in keys:
+            pool = [p for _, pats in per_key[k] for p in pats]
+            used = set()
+            for g in res:
+                want = [f % {'key': k} for f in fmts[g]]
+                exact = [pats for _, pats in per_key[k] if [p.pattern for p in pats] == want]
+                if exact:
+                    got = exact[0]
+                else:
+                    got = []
+                    for src in want:
+                        hit = [p for p in pool if p.pattern == src and id(p) not in used]
+                        if not hit:
+                            raise _blind('no compiled pattern for %r of key %r' % (src, k))
+                        got.append(hit[0])
+                used.update(id(p) for p in got)
+                res[g][k] = list(got)
+            extra = [p.pattern for p in pool if id(p) not in used]
+            if extra:
+                raise _blind('compiled patterns that are in no format table: %r' % extra[:2])
+        _located[ck] = res
+        return res
+    # no format tables: exactly three groups per key, told apart by group count and by probing the public API
+    paths = [path for path, _ in per_key[keys[0]]]
+    if len(paths) != 3 or any([p for p, _ in per_key[k]] != paths for k in keys):
+        raise _blind('cannot map %d pattern groups back to the three substitution steps' % len(paths))
+    groups = [{k: per_key[k][i][1] for k in keys} for i in range(3)]
+    one = [i for i in range(3) if all(p.groups == 1 for k in keys for p in groups[i][k])]
+    if len(one) != 1:
+        raise _blind('cannot tell the one-group pattern list apart')
+    a, b = [i for i in range(3) if i != one[0]]
+    cands = [{'2': groups[a], '1': groups[one[0]], 'W': groups[b]}, {'2': groups[b], '1': groups[one[0]], 'W': groups[a]}]
+    fits = [c for c in cands if _agrees(mod, keys, c)]
+    if len(fits) != 1:
+        raise _blind('probing mask_password does not single out the assignment of the pattern groups')
+    _located[ck] = fits[0]
+    return fits[0]
+
+
 def extract(mod):
     """-> dict(keys, ignorecase, lists={'2': [...], '1': [...], 'W': [...]}) of templates."""
-    keys = list(mod._SANITIZE_KEYS)
+    keys = sanitize_keys(mod)
     for k in keys:
         if not isinstance(k, str) or not k or any(ord(c) >= 128 for c in k):
             raise Untranslatable('sanitize key %r is not a non-empty ASCII str' % (k,))
-    tables = {'2': mod._SANITIZE_PATTERNS_2, '1': mod._SANITIZE_PATTERNS_1, 'W': mod._SANITIZE_PATTERNS_WILDCARD}
+    tables = pattern_tables(mod)
     result = {}
     icase = None
     for name, table in tables.items():
@@ -280,9 +437,9 @@ def crosscheck(mod, ex):
     dom = [chr(c) for c in facts['domain']] + ['é', '̇', 'Σ', 'Ω', '\U0001f600']
     seen = set()
     key = ex['keys'][0]
-    for name, table in (('2', mod._SANITIZE_PATTERNS_2), ('1', mod._SANITIZE_PATTERNS_1),
-                        ('W', mod._SANITIZE_PATTERNS_WILDCARD)):
-        for comp in table[key]:
+    tables = pattern_tables(mod)
+    for name in ('2', '1', 'W'):
+        for comp in tables[name][key]:
             tree = sre_parse.parse(comp.pattern, comp.flags & ~re.UNICODE)
             nodes = []
             for n in tree:
